@@ -42,6 +42,7 @@ type ctrlWorld struct {
 	listFaultKind string
 	slowSync      bool // the sync of list listFaultAt-1 takes 2.5 periods (a slow filter)
 	slowArmed     atomic.Bool
+	busy          atomic.Bool // the slow filter is asleep inside the library right now
 	overflow      bool // a burst of more than EventBufsiz changes arrives while the controller is busy in a sync
 	backlog       int // server changes since the watch was last seen connected at a quiescent point
 }
@@ -63,7 +64,17 @@ func (w *ctrlWorld) hook(component, format string) {
 	}
 }
 
-func (w *ctrlWorld) wait() { settle(&w.hookN) }
+// wait reaches quiescence. A collaborator that is asleep on purpose (the slow filter of the busy-controller and
+// overflow flavours) is not quiescence: the controller is in the middle of an operation.
+func (w *ctrlWorld) wait() {
+	for {
+		settle(&w.hookN)
+		if !w.busy.Load() {
+			return
+		}
+		time.Sleep(100 * time.Millisecond)
+	}
+}
 
 func (w *ctrlWorld) now() string { return fmt.Sprint(time.Since(w.start).Milliseconds()) }
 
@@ -319,7 +330,9 @@ func runCtrlScenario(t *testing.T, tr *tracer, idx int, seed uint64, mode string
 						w.backlog = 0
 						w.srvEvent()
 					}
+					w.busy.Store(true)
 					time.Sleep(2 * time.Second)
+					w.busy.Store(false)
 				}
 			}
 			defer func() { kv.FNHook = nil }()
@@ -332,7 +345,9 @@ func runCtrlScenario(t *testing.T, tr *tracer, idx int, seed uint64, mode string
 			rootF = kv.Term{Op: "and", Kids: []kv.Term{rootF, {Op: "fn", N: 2}}}
 			kv.FNHook = func() {
 				if w.slowArmed.CompareAndSwap(true, false) {
+					w.busy.Store(true)
 					time.Sleep(w.period*5/2 + w.period/10)
+					w.busy.Store(false)
 				}
 			}
 			defer func() { kv.FNHook = nil }()
